@@ -17,11 +17,11 @@ RULE = ("moment quadruples: realisable ones computed from von-Mises mixtures (is
 ASSUMPTIONS = ["finite moments with a1^2+b1^2<1; direction grid np.linspace(0,360,N,endpoint=False) or a rotated "
                "uniform grid", "a worker process dying inside JIT code counts as 'raised'"]
 REQUIRED_MONITORS = ["C05.no-exception", "C05.finite", "C05.non-negative", "C05.integrates-to-one",
-                     "C05.spectrum:e-conserved", "C05.spectrum:m0-conserved", "C05.spectrum:carry-over",
+                     "C05.spectrum:e-conserved", "C05.spectrum:m0-conserved", "C05.spectrum:carry-over", "C05.spectrum:direction-grid",
                      "C05.batch==single"]
 REQUIRED_REACH = ["estimate.py:estimate_directional_distribution", "mem.py:_mem", "mem2.py:mem2",
                   "mem2.py:mem2_scipy_root_finder", "spectrum.py:FrequencySpectrum.as_frequency_direction_spectrum"]
-REQUIRED_COUNTERS = {"C05.unrealisable_inputs": 5, "C05.calls:mem": 5, "C05.calls:mem2:newton": 5,
+REQUIRED_COUNTERS = {"C05.all_N_8..180_enumerated": 1, "C05.unrealisable_inputs": 5, "C05.calls:mem": 5, "C05.calls:mem2:newton": 5,
                      "C05.calls:mem2:scipy": 5, "C05.calls:mem2:approximate": 5, "C05.scalar_inputs": 1}
 TIMEOUT = {"quick": 900, "thorough": 3600}
 N = {"quick": (8, 30), "thorough": (15, 500)}
@@ -31,7 +31,7 @@ WARMUP_SHARD = {"n": 2, "warmup": True}
 
 def plan(tier, seed):
     ns, per = N[tier]
-    shards = [{"n": per} for _ in range(ns)]
+    shards = [{"n": per} for _ in range(ns)] + [{"n": 0, "all_N": True}]
     if tier == "thorough":
         shards.append({"n": per // 3, "env": {"NUMBA_BOUNDSCHECK": "1"}})
     return shards
@@ -183,6 +183,9 @@ def judge_spectrum(ctx, c):
                          key=f"C05:raised:spectrum:{tag}")
         if not ok:
             continue
+        dgot = np.asarray(s2.direction.values, float)
+        ctx.check("C05.spectrum:direction-grid", dgot.shape == (nd,) and bool(np.allclose(dgot, np.arange(nd) * 360.0 / nd, atol=1e-9)),
+                  wit, {"N": nd, "got_len": int(dgot.size)}, key=f"C05:spectrum:direction-grid:{tag}")
         e0 = np.asarray(s.e.values, float)
         scale = float(np.nanmax(np.abs(e0), initial=1.0))
         ctx.close("C05.spectrum:e-conserved", s2.e.values, e0, atol=1e-9 * scale, rtol=1e-9, case=wit,
@@ -220,11 +223,22 @@ def make_spectrum_case(rng):
         a1, b1, a2, b2 = vonmises_moments(rng, np.asarray(g["E"]).shape)
         g.update({"a1": a1, "b1": b1, "a2": a2, "b2": b2})
     variants = [VARIANTS[int(i)] for i in rng.choice(4, size=2, replace=False)]
-    return {"gen": g, "nd": int(rng.choice([12, 24, 36])), "variants": variants}
+    return {"gen": g, "nd": int(rng.choice([12, 24, 36, int(rng.integers(8, 181))])), "variants": variants}
+
+
+def all_N(ctx, rng):
+    """every N in 8..180 once (MEM, one small spectrum): the direction grid has exactly N bins and energy is conserved"""
+    g = gs.case_1d(rng, layout="time", nf=3, depth_kind="finite", allow_zero=False, rmax=0.9)
+    for nd in range(8, 181):
+        judge_spectrum(ctx, {"gen": g, "nd": nd, "variants": [("mem", None)]})
+    ctx.count("C05.all_N_8..180_enumerated")
 
 
 def run_shard(ctx, shard):
     rng = ctx.rng()
+    if shard.get("all_N"):
+        all_N(ctx, rng)
+        return
     for i in range(shard["n"]):
         if i % 4 == 3 and not shard.get("warmup"):
             judge_spectrum(ctx, make_spectrum_case(rng))
